@@ -522,6 +522,11 @@ class SBT(Index):
                     raise ValueError(
                         "ERROR: no min_n_below on this tree, cannot search."
                     )
+                if tree_scaled and scaled != tree_scaled:
+                    # leaves are compared after downsampling to the query's scaled;
+                    # min_n_below counts hashes at the tree's scaled and is no lower
+                    # bound of their size any more. 1 is (a leaf that matches is not empty).
+                    subj_size = 1
                 total_size = subj_size  # approximate; do not collect
 
             # calculate score (exact, if leaf; approximate, if not)
